@@ -7,6 +7,10 @@ ALL = ["C%02d" % i for i in range(1, 21)]
 CODEC_NOTE = "Trusted: the reflection bridge (identity-checked on every case), the schema universe and alphabets, the reference codecs, the Go toolchain. Schemas enter as the generator's intermediate JSON (the Java parser is absent). Small-scope bounds: depth <= 2 (3 on spines), <= 5 entries, strings <= 2 chars over the metacharacter set + tokens."
 WIRE_NOTE = "Trusted: mc/wire (net/http serialisation + server-side parsing, no sockets), the reflection bridge and call/reply machinery, the resource universe. Resources enter as the generator's intermediate JSON. Association resources are not in the grammar (the generator does not support them)."
 CHECKS = {
+ "C17": dict(engine="sched", category="model_checking", design="§3 C17",
+   technique="stateless DFS over all schedules of real goroutines under a cooperative scheduler (all interleavings for 2 threads, preemption-bounded for 3) with an isolation-equivalence oracle; plus a free-running pass of the same bodies under the Go race detector as a supplementary detector",
+   text="(a) One server handler and one generated client shared by 2 (all interleavings) or 3 (preemption bound 2, thorough 3) concurrent requests drawn from 11 mixed requests (get, create, update, delete, finder, entity action, batch_get, an ErrorResponse object shared by all requests, a status override, a key with reserved characters): every request's observations - routing facts seen by the filter, resource arguments, wire status / headers / body, client result - must equal its observations in isolation, and the shared error object must stay untouched; scheduling points are the harness-owned callbacks (round-trip entry/exit, PreRequest, resource entry/exit, PostRequest). (b) 2-3 concurrent D2 resolutions plus the cluster's updater thread on one client with the lazy map's sync operations shimmed and RNG draws as points. (c) Supplementary: the same bodies free-running with -race at GOMAXPROCS 1/2/16; any report is a violation.",
+   note="Trusted: scheduler, verifsync shim, wire. The property's own quantifier (randomized runs under the race detector) is a sampling formulation; what is decided here is isolation-equivalence over all interleavings at the listed points. Accesses between two points and weak-memory effects are only covered by the -race pass, whose silence is not claimed as coverage."),
  "C07": dict(engine="enumx", category="model_checking", design="§3 C07",
    technique="exhaustive enumeration of exclusion specs (1 and 2 paths over candidate paths incl. wildcards and absent names) x writers / readers / leading-scope offsets against a reference path matcher; enumerated annotated-resource cases over the in-memory wire",
    text="Codec level: 9 nested schemas x every single-path spec and every pair over the candidate paths (all value paths of the fully populated value to depth 4, plus one segment replaced by * or by an absent name; ~80000 specs in quick) x {JSON writer, ROR2 writer, JSON / ROR2 / untyped readers at leading-scope offsets 0-3}: writer output must denote the value minus exactly the matching sub-trees; readers must raise ExcludedFieldError iff the document carries a value at a matching path and must not report excluded required fields missing. Wire level: a resource with read-only and create-only fields at top level, nested, under array and map wildcards: create / batch_create bodies carry no read-only field, update / batch_update no read-only or create-only field, 6 offending patches are refused by the client with zero requests on the wire while 4 clean ones arrive intact, and 13 raw offending bodies are answered 400 without invoking the resource.",
